@@ -31,8 +31,8 @@ CHECKS = [
     ("protocol/ws_stream.py", "C10 C11 C12 C03 C04 C16"),
     ("protocol/__init__.py", "C13 C07 C04"),
     ("protocol/events.py", "C01 C02"),
-    ("asyncio/tcp_server.py", "C07 C08 C03 C01 C02 C13 C15 C16"),
-    ("trio/tcp_server.py", "C07 C08 C03 C01 C02 C13 C15 C16"),
+    ("asyncio/tcp_server.py", "C07 C08 C03 C01 C02 C13 C15 C16 C04"),
+    ("trio/tcp_server.py", "C07 C08 C03 C01 C02 C13 C15 C16 C04"),
     ("asyncio/task_group.py", "C05 C03 C15 C02 C16"),
     ("trio/task_group.py", "C05 C03 C15 C02 C16"),
     ("asyncio/worker_context.py", "C07 C18 C15 C16"),
